@@ -110,9 +110,15 @@ Definition oroot (o : option otree) : option str :=
   match o with Some (OT i _ _ _ _ _ _ _ _ _) => Some i | None => None end.
 
 (* BuildSpanTree driven directly: spanMap = the spans keyed by their ids, idToParentId = pm *)
+(* an observed error has two explanations when there are several roots: no root at all, or the map
+   iteration ended on a root whose id is "" (res.SpanID == "") *)
 Definition check_tree (spans : list span) (pm : pmap) (obs : option otree) : bool :=
   let m := map (fun s => (sp_id s, init_node s)) spans in
-  opt_tree_eqb (build_span_tree (order_last (map fst m) (oroot obs)) m pm) obs.
+  opt_tree_eqb (build_span_tree (order_last (map fst m) (oroot obs)) m pm) obs
+  || match obs with
+     | None => opt_tree_eqb (build_span_tree (order_last (map fst m) (Some [])) m pm) None
+     | Some _ => false
+     end.
 
 (* ProcessGanttChartRequest: recs = the records of the trace query (for duplicated span ids
    the harness puts the duplicate the real code kept last) *)
